@@ -104,9 +104,11 @@ pub fn sub(seed: u64) -> Program {
             0..=3 => {}
             4..=7 => late_ops.push((g.rng.range(1, nprod_threads as u64 - 1) as usize, Op::Unsub { reg })),
             _ => {
+                // unsubscribed again and again (every call after the first must be a no-op)
                 let t = g.rng.range(1, nprod_threads as u64 - 1) as usize;
-                late_ops.push((t, Op::Unsub { reg }));
-                late_ops.push((t, Op::Unsub { reg }));
+                for _ in 0..g.rng.range(2, 4) {
+                    late_ops.push((t, Op::Unsub { reg }));
+                }
             }
         }
     }
@@ -139,6 +141,21 @@ pub fn sub(seed: u64) -> Program {
             }
             _ => insert_at_random(&mut g, &mut threads[t], op),
         }
+    }
+    // early cross-unsubscription with a slow victim: A (prompt, channeled) is told about the very
+    // first action and unsubscribes B (channeled, 700 ms per notification) from inside its callback
+    // while B is still busy with that same notification; everything else happens afterwards
+    if g.rng.chance(8) {
+        let trig = g.new_act();
+        g.acts.insert(trig, ActScript { sel: g.rng.below(3) as u8, ..Default::default() });
+        let (reg_a, reg_b) = (regs, regs + 1);
+        regs += 2;
+        subs.push(SubCfg { kind: SubKind::Channeled { cap: g.rng.pick(&[2usize, 4]), policy: Policy::Block }, unsub_other: Some((trig, reg_b)), ..Default::default() });
+        main.push(Op::AddSub { store: 0, sub: subs.len() - 1, reg: reg_a });
+        subs.push(SubCfg { kind: SubKind::Channeled { cap: 2, policy: Policy::Block }, sleep_ms: 700, ..Default::default() });
+        main.push(Op::AddSub { store: 0, sub: subs.len() - 1, reg: reg_b });
+        main.push(Op::Dispatch { store: 0, act: trig, via: Via::Impl });
+        main.push(Op::Settle);
     }
     let mut settle_before_stop = false;
     // a channeled subscriber that, when told about some action, unsubscribes ANOTHER subscriber
@@ -615,6 +632,13 @@ pub fn two(seed: u64) -> Program {
                     fwd_map.insert(a, b);
                 }
             }
+            // sometimes the reducer answers with a follow-up action for its own store
+            if g.rng.chance(12) {
+                let id = g.new_eff();
+                let f = g.plain_act(&reds_of[s].clone(), 0);
+                let r0 = reds_of[s][0];
+                g.acts.get_mut(&a).unwrap().red.entry(r0).or_default().eff = Some(EffSpec { id, kind: EffKind::Action(f), panic: false, gate: None, sleep_ms: 0 });
+            }
             if twins.is_some() && g.rng.chance(25) {
                 let r0 = reds_of[s][0];
                 g.acts.get_mut(&a).unwrap().red.entry(r0).or_default().sleep_ms = 1;
@@ -631,6 +655,14 @@ pub fn two(seed: u64) -> Program {
         subs.push(SubCfg { kind: SubKind::Direct, forward: Some((to, fwd_map.clone())), ..Default::default() });
         main.push(Op::AddSub { store: from, sub: subs.len() - 1, reg: regs });
         regs += 1;
+    }
+    // the shared subscriber object is sometimes unsubscribed from both stores by two different
+    // threads while both stores are running
+    if regs == 4 && threads.len() >= 3 && g.rng.chance(40) {
+        for (r, t) in [(2usize, 1usize), (3usize, 2usize)] {
+            let pos = g.rng.below(threads[t].len() as u64 + 1) as usize;
+            threads[t].insert(pos, Op::Unsub { reg: r });
+        }
     }
     // each store also has a subscriber of its own that some thread unsubscribes while both stores run
     if g.rng.chance(50) {
@@ -673,6 +705,10 @@ pub fn two(seed: u64) -> Program {
         main.push(Op::Join { thread: t });
     }
     main.push(Op::Stop { store: victim });
+    // the survivor is given time to come to rest while still open: whatever it accepted, and every
+    // follow-up its reducers asked for, must have been processed by then
+    main.push(Op::Settle);
+    main.push(Op::Snap { tag: 0 });
     main.push(Op::Stop { store: survivor });
     for s in 0..2 {
         main.push(Op::GetState { store: s });
